@@ -287,7 +287,11 @@ def c19_family(kind: str, rng: Rng, n: int) -> dict:
 
     def wrapped(agent, t):
         try:
-            return orig(agent, t)
+            ret = orig(agent, t)
+            if not (isinstance(ret, tuple) and len(ret) == 2 and isinstance(ret[0], str) and isinstance(ret[1], dict)):
+                caught.append({"phase": "get_action-return", "t": t, "exc": "MalformedAction", "msg": f"get_action returned {ret!r}"[:120],
+                               "where": "get_action"})
+            return ret
         except Exception as e:
             info = {"phase": "get_action", "t": t, **exc_info(e)}
             if hasattr(agent, "current_kill_chain_stage"):
